@@ -494,7 +494,9 @@ def unrealize(v, t):
         out = {"nodes": {k: {f: (d.get(f) if f in d else None) for f in t.fields["nodes"].v.fields} for k, d in v.nodes(data=True)},
                "adj": {(a, b) for a, b in v.edges} | {(b, a) for a, b in v.edges}}
         for f, ft in t.fields.items():
-            if f not in ("nodes", "adj"):
+            if f == "eattr":
+                out[f] = {(min(a, b), max(a, b)): dict(d) for a, b, d in v.edges(data=True)}
+            elif f not in ("nodes", "adj"):
                 out[f] = getattr(v, f, None)
         return out
     return v
@@ -538,8 +540,10 @@ def conformance(n=40, seed=1):
             continue
         for reg in [getattr(m, x) for x in dir(m) if x.startswith("REG")]:
             for c in reg.values():
-                if "self" in c.params or c.modifies or c.raises or c.exposes or not c.ensures:
+                if "self" in c.params or c.raises or c.exposes or not c.ensures:
                     continue
+                if c.modifies and not (c.witness and all(m.split(".")[0] in c.params for m in c.modifies)):
+                    continue            # contracts with a frame need a witness generator (ghost parameters, shaped inputs)
                 if any("_" + g.lstrip("_") in str(e) for g in c.ghost_locals for _n, e in c.ensures):
                     continue            # the postcondition mentions ghost state
                 cases.append((c, reg))
@@ -562,9 +566,13 @@ def conformance(n=40, seed=1):
             if ran >= n:
                 break
             try:
-                args = {p: gen(t, rnd) for p, t in c.params.items()}
-                if not requires_hold(c, reg, args):
-                    continue
+                ghosts = {}
+                if c.witness:
+                    args, ghosts = c.witness(rnd)       # shaped inputs + values of the ghost parameters of the specification
+                else:
+                    args = {p: gen(t, rnd) for p, t in c.params.items()}
+                    if not requires_hold(c, reg, args):
+                        continue
                 real_args = c.adapt(copy.deepcopy(args)) if c.adapt else {p: realize(copy.deepcopy(v), c.params[p]) for p, v in args.items()}
             except Exception as e:                      # noqa: BLE001
                 skipped[c.target] = f"inputs: {type(e).__name__}: {e}"
@@ -573,27 +581,41 @@ def conformance(n=40, seed=1):
                 res = fn(**real_args)
                 res = list(res) if hasattr(res, "__next__") else res
             except Exception as e:                      # noqa: BLE001
+                if any(type(e).__name__ == x or (x == "OSError" and isinstance(e, OSError)) for x in c.raises_when):
+                    continue            # an exception the contract allows (its condition is a statement about locals: not evaluated here)
                 if type(e).__name__ in ("NetworkXError", "NodeNotFound", "KeyError") and not c.module.startswith("polyply"):
                     continue            # library precondition (e.g. source not in graph) not expressed in the assumed contract: input skipped
                 skipped[c.target] = f"real function raised {type(e).__name__}: {e}"
                 break
             try:
-                sym_env, assign = {}, {"__universe__": {"Node": universe}}
+                from pyvc import ops as _ops
+                uni = list(universe) + sorted(_ops.INTERNED) + list(ghosts.get("__names__", []))
+                win = range(-1, int(ghosts.get("__window__", 8)))
+                sym_env, assign = {}, {"__universe__": {"Node": uni, "Key_Int_Int": [(a, b) for a in win for b in win]}}
                 assign.update(uf_interpretations(universe))
+                assign.update({"name:" + s: s for s in _ops.INTERNED})
+                assign.update({k: v for k, v in ghosts.items() if not k.startswith("__")})
                 for p, t in c.params.items():
                     v = t.fresh(p)
                     sym_env[p] = v
                     for term, val in zip(t.flat(v), flat_py(t, args[p])):
                         assign[term.decl().name()] = val
+                post_env = dict(sym_env)
+                for p in sorted({m.split(".")[0] for m in c.modifies}):
+                    t = c.params[p]
+                    v = t.fresh(p + "_after")
+                    post_env[p] = v
+                    for term, val in zip(t.flat(v), flat_py(t, unrealize(real_args[p], t))):
+                        assign[term.decl().name()] = val
                 rv = c.result.fresh("result")
-                sym_env["result"] = rv
+                post_env["result"] = rv
                 for term, val in zip(c.result.flat(rv), flat_py(c.result, unrealize(res, c.result))):
                     assign[term.decl().name()] = val
                 e2 = Engine(reg)
                 e2.contract = c
                 for name, ens in c.ensures:
-                    val = e2.spec_eval(ens, sym_env, old_env=sym_env)
-                    ok = val if isinstance(val, bool) else bool(numeval.evaluate(val, assign, window=range(-1, 8)))
+                    val = e2.spec_eval(ens, post_env, old_env=sym_env)
+                    ok = val if isinstance(val, bool) else bool(numeval.evaluate(val, assign, window=win))
                     clauses += 1
                     if not ok:
                         bad.append((c.target, name, {k: repr(v)[:150] for k, v in args.items()}, repr(res)[:150]))
